@@ -136,7 +136,7 @@ class LayoutFamily(Family):
     def __init__(self, dmax, cycles, states='few'):
         self.dmax, self.cycles, self.states = dmax, tuple(cycles), states
         self.name = 'layout-subchains(d<=%d)' % dmax
-        self.rule = ('every contiguous data-ancilla-...-data sub-chain with up to %d data qubits of the three shipped repetition layouts through from_connectivity x cycles %r x refocusing on/off x '
+        self.rule = ('every contiguous data-ancilla-...-data sub-chain (in both directions) with up to %d data qubits of the three shipped repetition layouts through from_connectivity x cycles %r x refocusing on/off x '
                      '%s; non-trivial = always (gate order comes from the layout)' % (dmax, list(cycles), 'all computational states' if states == 'all' else 'six state patterns'))
 
     def shards(self, tier):
@@ -158,6 +158,8 @@ class LayoutFamily(Family):
                 for bits in pats:
                     for refocus in (True, False):
                         yield (name, sub, cycles, refocus, bits)
+                        # the same qubits handed over in the opposite direction (the order of the identifiers is the order of the chain)
+                        yield (name, tuple(reversed(sub)), cycles, refocus, bits)
 
     def run(self, case):
         name, sub, cycles, refocus, bits = case
